@@ -391,6 +391,11 @@ impl BuildJob<'_> {
         Ok(Box::pin(async move {
             let _lock = lock; // ensure we hold the lock until after state has been recorded
             let mut rv = job.await;
+            #[cfg(feature = "verif")]
+            {
+                crate::verif::event("job_done", &format!("fid={} rv={} t={}", _lock.file_id(), rv, &t));
+                crate::verif::delay("after_exit");
+            }
             let mut ps = ps_ref.borrow_mut();
             let mut ptx = match ProcessTransaction::new(*ps, TransactionBehavior::Immediate) {
                 Ok(ptx) => ptx,
@@ -402,6 +407,11 @@ impl BuildJob<'_> {
             if let Err(e) = ptx.commit() {
                 eprintln!("{:?}: {}", &t, e);
                 return EXIT_BUILD_JOB_ERROR;
+            }
+            #[cfg(feature = "verif")]
+            {
+                crate::verif::event("record_commit", &format!("fid={} rv={} t={}", _lock.file_id(), rv, &t));
+                crate::verif::delay("after_commit");
             }
             rv
         }))
@@ -570,6 +580,8 @@ impl BuildJob<'_> {
                     log_err!("{:?}: rename {:?}: {}", t, tmp_name, e);
                     rv = EXIT_BUILD_JOB_ERROR;
                 }
+                #[cfg(feature = "verif")]
+                crate::verif::delay("after_rename");
             } else {
                 // no output generated at all; that's ok
 
@@ -750,6 +762,11 @@ where
                     .map_err(RedoError::opaque_error)?;
                 ptx.set_drop_behavior(DropBehavior::Commit);
                 let mut f = state::File::from_name(&mut ptx, t, true)?;
+                #[cfg(feature = "verif")]
+                crate::verif::event(
+                    "consider",
+                    &format!("fid={} keep_going={} t={}", f.id(), ptx.state().env().keep_going, t),
+                );
                 let mut lock = ptx.state().new_lock(f.id().try_into().unwrap());
                 if ptx.state().env().unlocked {
                     lock.force_owned();
@@ -782,6 +799,8 @@ where
                     job_futures.push(Box::pin(async move {
                         let rv = job.await;
                         if rv != EXIT_SUCCESS {
+                            #[cfg(feature = "verif")]
+                            crate::verif::event("fail_known", &format!("rv={} t={}", rv, &t));
                             result.set(Err(RedoError::new(format!("{:?}: exit code {}", t, rv))));
                         }
                     }));
@@ -839,6 +858,11 @@ where
                 // be released; but we should never run ensure_token() while
                 // holding a lock, or we could cause deadlocks.
                 server.release_mine()?;
+                #[cfg(feature = "verif")]
+                {
+                    crate::verif::event("lock_wait", &format!("fid={}", fid));
+                    crate::verif::delay("before_wait_lock");
+                }
                 lock.wait_lock(LockType::Exclusive)?;
                 // now t is definitely free, so we get to decide whether
                 // to build it.
